@@ -105,8 +105,15 @@ package dagsync
 //@   loop 1: invariant chansOpen(outEventsChans)
 //@   loop 1: invariant chansDistinct(outEventsChans)
 //@   loop 2: invariant chansNot(outEventsChans, s.inEvents) && chansDistinct(outEventsChans) && rangeindex < len(outEventsChans) && forall(a, 0, len(outEventsChans), outEventsChans[a] != nil) && forall(a, 0, rangeindex + 1, closed(outEventsChans[a])) && forall(a, rangeindex + 1, len(outEventsChans), !closed(outEventsChans[a]))
-//@   loop 3: invariant subChans(s) && chansNot(outEventsChans, s.inEvents) && chansOpen(outEventsChans) && chansDistinct(outEventsChans) && rangeindex < len(outEventsChans)
-//@   loop 4: invariant subChans(s) && chansNot(outEventsChans, s.inEvents) && chansOpen(outEventsChans) && chansDistinct(outEventsChans) && rangeindex < len(outEventsChans) && forall(a, 0, rangeindex + 1, outEventsChans[a] != ch) && !removed && len(outEventsChans) == n0
+//@   loop 3: invariant subChans(s) && rangeindex < len(outEventsChans)
+//@   loop 3: invariant chansNot(outEventsChans, s.inEvents)
+//@   loop 3: invariant chansOpen(outEventsChans)
+//@   loop 3: invariant chansDistinct(outEventsChans)
+//@   loop 4: invariant subChans(s) && rangeindex < len(outEventsChans) && !removed && len(outEventsChans) == n0
+//@   loop 4: invariant chansNot(outEventsChans, s.inEvents)
+//@   loop 4: invariant chansOpen(outEventsChans)
+//@   loop 4: invariant chansDistinct(outEventsChans)
+//@   loop 4: invariant forall(a, 0, rangeindex + 1, outEventsChans[a] != ch)
 
 // ---------------------------------------------------------------------------
 // C01 (decision tables), C04 (failure changes nothing), C15 (explicit-sync protocol), C03 (no sync after a rejected head)
